@@ -14,7 +14,9 @@ EXTENDS MBXMLVar
 VarLen(bytes, idx) ==
   LET S == {n \in 1..5 : idx + n <= Len(bytes) /\ bytes[idx + n] < 128 /\ \A m \in 1..(n - 1) : bytes[idx + m] >= 128}
   IN IF S = {} THEN 1000 ELSE CHOOSE n \in S : TRUE
-VarVal(bytes, idx) == LET r == ReadU(bytes, idx) IN r[1][1] * 65536 + r[1][2]        \* small values only (lengths, ids)
+\* lengths and ids: the value, saturated at 10^9 (a malformed buffer can hold a five-septet count; TLC integers are 32 bit and the
+\* judge must give a verdict on every buffer the implementation produced, also on nonsense)
+VarVal(bytes, idx) == LET r == ReadU(bytes, idx) IN IF r[1][1] >= 15000 THEN 1000000000 ELSE r[1][1] * 65536 + r[1][2]
 
 \* octets occupied by the value of a token of the given kind starting at idx
 ValueLen(kind, bytes, idx) ==
